@@ -70,6 +70,8 @@ def make_array(shape, layout, values):
              S  every second element of a wider buffer (non-contiguous)
              N0 `a[..., None]`   : last axis of size 1 with stride 0      (NumPy sets the C-contiguous flag)
              NT `a.swapaxes(-1,-2)` of a (…,1,m) array: last stride = m items (C-contiguous flag set)
+             L  `a[::2]` of a buffer twice as long along the first axis (only a leading axis is strided)
+             R  `a[::-1]` (negative stride on the first axis)
     Returns (arr, keepalive)."""
     shape = tuple(int(i) for i in shape)
     n = int(np.prod(shape)) if shape else 1
@@ -83,6 +85,16 @@ def make_array(shape, layout, values):
             return core[:1].reshape(()), big
         arr = core.reshape(shape[:-1] + (2 * shape[-1],))[..., ::2]
         return arr, big
+    if layout == "L":  # every second index of the FIRST axis of a larger buffer: only a leading axis is strided
+        big = np.full(2 * n + 2 * SLACK, SENT)
+        arr = big[SLACK:SLACK + 2 * n].reshape((2 * shape[0],) + shape[1:])[::2]
+        arr[...] = vals.reshape(shape)
+        return arr, big
+    if layout == "R":  # the first axis reversed (negative leading stride, trailing axes contiguous)
+        big = np.full(n + 2 * SLACK, SENT)
+        core = big[SLACK:SLACK + n].reshape(shape)
+        core[...] = vals.reshape(shape)[::-1]
+        return core[::-1], big
     big = np.full(n + 2 * SLACK, SENT)
     core = big[SLACK:SLACK + n]
     if layout == "C" or not shape:
@@ -113,6 +125,8 @@ def layouts_for(shape, allow_b=True):
     ls = ["C"]
     if len(shape) >= 2:
         ls.append("T")
+        if shape[0] > 1:
+            ls += ["L", "R"]
     if len(shape) >= 1 and shape[-1] > 1:
         ls.append("S")
         if allow_b:
